@@ -7,8 +7,8 @@ from lib.probes import sandwich, harvest_ints, harvest_strs
 from lib.trees import Gen, to_line, to_node, from_node, to_json, from_json, hx
 
 PID = "C01"
-GEN = ["tokendict"]
-LEAN_MODULES = ["YowsupVerif.Props.C01"]
+GEN = ["tokendict", "nibsrc"]
+LEAN_MODULES = ["YowsupVerif.Props.C01", "YowsupVerif.Props.C01Src"]
 RULE = ("streams: 'roundtrip' = well-formed trees (property's domain) from a structured generator (dictionary tokens of both tables, "
         "digit/nibble/hex strings of every length 1..255 and around 127/128/255/256, JIDs with 1-3 '@', Latin-1 text, literals harvested "
         "from the current source ±1 as sizes/strings; binary content sizes around 0/255/256/0xFFFFF/0x100000 top-level and nested, with and "
@@ -55,6 +55,8 @@ def _list_cases():
 def cases(chk):
     r = chk.rng
     g = chk.gen
+    # --- the translator of the digit packing functions (gen/nibsrc.py) against the real functions: every argument around the alphabets
+    yield "nibsrc", {}
     # --- corpus: past failures / boundaries (always first)
     for t in _big_cases(chk.quick()):
         yield "roundtrip", {"tree": to_json(t)}
@@ -262,8 +264,48 @@ def run_giant(chk, case):
     return []
 
 
+def run_nibsrc(chk):
+    """the real packing functions of the current source and their TRANSLATION (Gen/NibblesSrc.lean, evaluated by the model driver) on every argument
+    from -2 to 300 — validates the translator; the theorems of Props/C01Src.lean are about the translated text"""
+    from yowsup.layers.coder.decoder import ReadDecoder
+    from yowsup.layers.coder.encoder import WriteEncoder
+    from yowsup.layers.coder.tokendictionary import TokenDictionary
+    fails = []
+    enc, dec = WriteEncoder(TokenDictionary()), ReadDecoder(TokenDictionary())
+
+    def real(fn, *a):
+        try:
+            v = fn(*a)
+        except Exception:
+            return "raised"
+        return "none" if v is None else "ret %d" % v
+    for n in range(-2, 301):
+        for name, fn in (("packHex", enc.packHex), ("packNibble", enc.packNibble), ("unpackHex", dec.unpackHex), ("unpackNibble", dec.unpackNibble)):
+            i, m = real(fn, n), chk.driver.ask("coder nibsrc %s %d" % (name, n))
+            chk.hit("nibsrc:" + name, i.split()[0])
+            if i != m:
+                fails.append(corr("nibsrc:" + name, "%s(%d): the source returns %s, its translation %s" % (name, n, i, m)))
+                return fails
+        for t in (251, 255, 250, 0):
+            for name, fn in (("packByte", enc.packByte), ("unpackByte", dec.unpackByte)):
+                i, m = real(fn, t, n), chk.driver.ask("coder nibsrc %s %d %d" % (name, t, n))
+                if i != m:
+                    fails.append(corr("nibsrc:" + name, "%s(%d, %d): the source returns %s, its translation %s" % (name, t, n, i, m)))
+                    return fails
+    # the property on the real functions: what is packed unpacks to the same character
+    for t in (251, 255):
+        for c in range(0, 256):
+            d = enc.packByte(t, c)
+            if d != -1 and (not (0 <= d < 16) or real(dec.unpackByte, t, d) != "ret %d" % c):
+                fails.append(oracle("C01:digit-roundtrip", "packByte(%d, %d) = %r but unpackByte(%d, %r) gives %s" % (t, c, d, t, d, real(dec.unpackByte, t, d))))
+                return fails
+    return fails
+
+
 def run_case(chk, stream, case):
     fails = []
+    if stream == "nibsrc":
+        return run_nibsrc(chk)
     if stream == "giant":
         return run_giant(chk, case)
     if stream == "malformed":
